@@ -15,6 +15,13 @@ weighted ring) and mixed-types (members that carry no static weight under the we
 such a member is installed, they apply again once it is removed) are part of both tiers; the driver overwrites the list it
 handed to Refresh once Refresh has returned (the caller's list is not the selector's); the concurrent burst starts its
 goroutines together and is judged as T consecutive positions of the rotation.
+Endpoint manager (tars/endpointmanager.go, "seldrive mgr"): Gen_Mgr enumerates every history of registry replies (same set /
+one endpoint more / one less, always in a random order that is not sorted by host), endpoints blocked by the status check and
+brought back by a probe, to a depth, and samples deeper ones; the driver carries them out on a real registry-fed ServantProxy
+(the manager's own refresher asks the registry; five unanswered calls + status check with virtual time; answered probe), makes a
+window of plain one-way calls after every operation and records which scripted server received each; Oracle_Selector!MgrJudge
+turns the history into Refresh (the list the manager reports) / Remove / Add / nothing and judges the windows: members of the
+current set only, strict rotation over it (with static weights: the cycle counts).
 """
 import json
 import os
@@ -103,6 +110,59 @@ def generate(ctx, group, depth, simulate=None, seed=None):
     if not out or (not simulate and not r.success):
         raise Inconclusive("history generation failed for %s:\n%s" % (name, "\n".join(r.out.splitlines()[-30:])))
     return list(out.values()), r
+
+
+def generate_mgr(ctx, depth, simulate=None, seed=None):
+    """Histories of the endpoint manager (Gen_Mgr): all of length `depth`, or `simulate` sampled ones."""
+    name = "gen-manager-%d%s" % (depth, "-sim" if simulate else "")
+    r = tlc_run(ctx, SPEC, "Gen_Mgr", cfg="GenMgr_run.cfg", workers=1, timeout=900,
+                extra_files={"GenMgr_run.cfg": tmpl("GenMgr.cfg.tmpl", D=depth)}, name=name,
+                simulate=("num=%d" % simulate) if simulate else None, depth=(depth + 1) if simulate else None,
+                seed=seed if simulate else None)
+    out = {}
+    for line in r.out.splitlines():
+        if line.startswith('"{'):
+            try:
+                sc = json.loads(json.loads(line))
+            except ValueError:
+                continue
+            if len(sc["ops"]) == depth:
+                out[json.dumps(sc, sort_keys=True)] = sc
+    if not out or (not simulate and not r.success):
+        raise Inconclusive("history generation failed for %s:\n%s" % (name, "\n".join(r.out.splitlines()[-30:])))
+    return list(out.values()), r
+
+
+MGR_WEIGHT = {1: 1, 2: 3, 3: 2, 4: 3, 5: 1}      # static weight of host k in the weighted copies of the manager histories
+
+
+def mgr_walk(ops):
+    """Per step: (operation name, named set, blocked set) -- the bookkeeping of Gen_Mgr, used to word signatures and to
+    pick records for the self-test; the judgement is TLC's (Oracle_Selector!MgrJudge)."""
+    named, blocked, out = set(), set(), []
+    for op in ops:
+        if op["o"] == "K":
+            hs = {e["h"] for e in op["l"]}
+            nm = "first-registry-reply" if not named else "registry-tick-with-unchanged-set" if hs == named else "registry-refresh"
+            if nm == "registry-refresh" and (named - hs) and (named - hs) <= blocked:
+                nm += "-dropping-a-blocked-endpoint"
+            if hs != named and blocked & hs:
+                nm += "-while-a-blocked-endpoint-is-still-named"
+            named, blocked = hs, blocked & hs
+        elif op["o"] == "B":
+            nm = "endpoint-blocked"
+            blocked = blocked | {op["h"]}
+        else:
+            nm = "endpoint-recovered"
+            blocked = blocked - {op["h"]}
+        out.append((nm, set(named), set(blocked)))
+    return out
+
+
+def mgr_op_str(op):
+    if op["o"] == "K":
+        return "Registry{%s}" % ",".join("h%d" % e["h"] for e in op["l"])
+    return "%s(h%d)" % ("Block" if op["o"] == "B" else "Recover", op["h"])
 
 
 # ---------------------------------------------------------------------------------------------- oracle
@@ -276,6 +336,10 @@ def run(ctx):
                 gen_once[(g, d, sim)] = pool.submit(generate, ctx, g, d, sim, ctx.seed * 1000 + len(gen_once))
             gen_f[(fam, k)] = gen_once[(g, d, sim)]
 
+    # endpoint manager histories: (depth, simulated number or None = all)
+    mgr_plan = ctx.pick([(3, None), (8, 40)], [(4, None), (9, 300)])
+    mgr_gen_f = [pool.submit(generate_mgr, ctx, d, sim, ctx.seed * 1000 + 500 + k) for k, (d, sim) in enumerate(mgr_plan)]
+
     # ---- 1. model checking of the design
     mc_cfgs = ctx.pick(["rr_plain", "rr_weighted_q", "rr_degenerate_q", "others_q", "mixed_q", "conhash_q"],
                        ["rr_plain", "rr_weighted_q", "rr_degenerate_q", "others_q", "conhash_q", "mixed_q",
@@ -332,6 +396,69 @@ def run(ctx):
     wrecs = read_nd(os.path.join(wdir, "wrecs.ndjson"))
     if len(wrecs) != len(vrecs):
         raise Inconclusive("weights driver returned %d records for %d vectors" % (len(wrecs), len(vrecs)))
+
+    # ---- 2m. endpoint manager histories: generated by TLC, carried out on a registry-fed ServantProxy, judged by TLC
+    mdir = ctx.sub("b2m")
+
+    def drive_mgr():
+        base, mstats = [], {}
+        mg_states = mg_trans = 0
+        for (d, sim), f in zip(mgr_plan, mgr_gen_f):
+            scs, r = f.result()
+            if sim:
+                scs = sorted(scs, key=lambda x: json.dumps(x, sort_keys=True))
+                import random
+                random.Random(ctx.seed * 31 + d).shuffle(scs)
+                scs = scs[:sim]
+            mstats["depth%d%s" % (d, "/simulated" if sim else "/all")] = len(scs)
+            mg_states += r.distinct
+            mg_trans += r.generated
+            base.extend(scs)
+        # two copies: endpoints without static weights (as the registry gives them: weight 0), and with a static weight per host
+        scripts = []
+        for wtd in (False, True):
+            for sc in base:
+                def ep(e):
+                    return {"h": e["h"], "w": MGR_WEIGHT[e["h"]] if wtd else 0, "t": 1 if wtd else 0}
+                scripts.append({"ops": [dict(op, l=[ep(e) for e in op["l"]], w=(MGR_WEIGHT[op["h"]] if wtd and op["h"] else 0),
+                                             t=1 if wtd and op["h"] else 0) for op in sc["ops"]]})
+        nb = len(base)
+        lines = []
+        nshards = ctx.pick(4, 6)
+        jobs = []
+        for wtd in (False, True):
+            sp_ = os.path.join(mdir, "mgr-scripts-%d.ndjson" % wtd)
+            open(sp_, "w").write(dump_nd(scripts[nb:] if wtd else scripts[:nb]))
+            for k in range(nshards):
+                jobs.append((wtd, k, sp_))
+
+        def one(job):
+            wtd, k, sp_ = job
+            outp = os.path.join(mdir, "mgr-obs-%d-%d.ndjson" % (wtd, k))
+            rc, so, se = sh([exe, "mgr", "-in", sp_, "-out", outp, "-wt=%s" % ("true" if wtd else "false"), "-seed", str(ctx.seed),
+                             "-shard", str(k), "-shards", str(nshards), "-k", "8", "-kw", "40"], timeout=ctx.pick(300, 1500), check=False)
+            if rc != 0:
+                raise Inconclusive("manager driver failed (weighted=%s shard %d): rc=%d %s" % (wtd, k, rc, se[-2000:]))
+            st = json.loads(so.strip().splitlines()[-1])
+            recs = read_nd(outp)
+            for r_ in recs:
+                if wtd:
+                    r_["i"] += nb            # index into the combined script file
+            return recs, st
+        import time
+        t0 = time.time()
+        with ThreadPoolExecutor(max_workers=len(jobs)) as tp:
+            res = list(tp.map(one, jobs))
+        ctx.log("manager histories driven: %d in %.1fs" % (len(scripts), time.time() - t0))
+        recs = [r_ for rs, _ in res for r_ in rs]
+        recs.sort(key=lambda r_: r_["i"])
+        tot = {}
+        for _, st in res:
+            for kk, v in st.items():
+                tot[kk] = tot.get(kk, 0) + v
+        return scripts, recs, tot, mstats, mg_states, mg_trans
+
+    mgr_f = pool.submit(drive_mgr)
 
     # ---- 3. concurrent scenario (B1), plain and -race builds
     combos = [(s, wt) for s in ("rr", "random", "modhash", "conhash", "conhashd") for wt in (False, True)]
@@ -451,6 +578,52 @@ def run(ctx):
     for k in sorted(range(len(shard_jobs)), key=lambda k: -sum(len(x) for x in shard_jobs[k][3])):
         name, fam, stext, obs = shard_jobs[k]           # the most expensive shard first
         orc_f[k] = pool.submit(oracle, ctx, name, stext, obs_ext(k), wrecs_ext if k == len(shard_jobs) - 1 else [])
+
+    # manager histories: own oracle run, with two corrupted copies of accepted records appended (binding self-test)
+    def judge_mgr():
+        scripts, recs, tot, mstats, mg_states, mg_trans = mgr_f.result()
+        if len(recs) != len(scripts):
+            raise Inconclusive("manager driver returned %d records for %d histories" % (len(recs), len(scripts)))
+        skipped = [r_ for r_ in recs if r_["skip"]]
+        if len(skipped) * 5 > len(recs):
+            raise Inconclusive("manager driver could not carry out %d of %d histories, e.g. %s"
+                               % (len(skipped), len(recs), [r_["skip"] for r_ in skipped[:3]]))
+        # classes of histories the run must contain
+        cls = {"refresh-with-changed-set-while-a-blocked-endpoint-is-still-named": 0, "tick-with-unchanged-set-after-a-recovery": 0,
+               "refresh-dropping-a-blocked-endpoint": 0, "tick-with-unchanged-set-while-an-endpoint-is-blocked": 0}
+        st_c = []
+        for r_ in recs:
+            ops = scripts[r_["i"]]["ops"][:len(r_["obs"])]
+            w = mgr_walk(ops)
+            seen_v = False
+            for j, (nm, named, blocked) in enumerate(w):
+                seen_v = seen_v or nm == "endpoint-recovered"
+                if nm.endswith("while-a-blocked-endpoint-is-still-named"):
+                    cls["refresh-with-changed-set-while-a-blocked-endpoint-is-still-named"] += 1
+                    if len(st_c) == 0 and not r_["skip"] and not r_["wt"] and len(named - blocked) >= 2:
+                        c = json.loads(json.dumps(r_))
+                        c["obs"] = c["obs"][:j + 1]
+                        c["obs"][j]["sel"][1] = sorted(blocked & named)[0]      # a blocked endpoint serves a call after the refresh
+                        st_c.append(("manager-blocked-endpoint-selected-after-refresh", c, "non-member"))
+                elif nm == "registry-tick-with-unchanged-set" and seen_v:
+                    cls["tick-with-unchanged-set-after-a-recovery"] += 1
+                elif nm == "registry-tick-with-unchanged-set" and blocked:
+                    cls["tick-with-unchanged-set-while-an-endpoint-is-blocked"] += 1
+                    if len(st_c) == 1 and not r_["skip"] and not r_["wt"] and len(named - blocked) >= 2:
+                        c = json.loads(json.dumps(r_))
+                        c["obs"] = c["obs"][:j + 1]
+                        c["obs"][j]["sel"][1] = c["obs"][j]["sel"][0]             # the rotation stumbles after the tick
+                        st_c.append(("manager-rotation-broken-after-tick", c, "rotation"))
+                elif nm.startswith("registry-refresh-dropping-a-blocked-endpoint"):
+                    cls["refresh-dropping-a-blocked-endpoint"] += 1
+        if min(cls.values()) == 0 or len(st_c) < 2:
+            raise Inconclusive("vacuous manager histories: classes %s, self-test records %d" % (cls, len(st_c)))
+        lines = [json.dumps(r_, separators=(",", ":")) + "\n" for r_ in recs] + \
+                [json.dumps(c, separators=(",", ":")) + "\n" for _, c, _ in st_c]
+        bad, _, r = oracle(ctx, "manager", dump_nd(scripts), lines, [])
+        return scripts, recs, tot, mstats, mg_states, mg_trans, cls, st_c, bad, skipped
+
+    mgr_j = pool.submit(judge_mgr)
 
     # ---- 3b. traces -> TLC
     def prep_traces(path):
@@ -589,6 +762,50 @@ def run(ctx):
         if not res.startswith("rejected"):
             raise Inconclusive("binding self-test failed: corrupted record '%s' was %s" % (label, res))
 
+    # manager histories
+    scripts_m, recs_m, mtot, mstats, mg_states, mg_trans, mcls, st_c, mbad, mskipped = mgr_j.result()
+    for j, (label, _, want) in enumerate(st_c):
+        got = mbad.pop(len(recs_m) + j, None)
+        st_res[label] = "rejected (%s)" % got[1] if got and got[1] == want else "ACCEPTED/%s" % (got,)
+        if not st_res[label].startswith("rejected"):
+            raise Inconclusive("binding self-test failed: corrupted record '%s' was %s" % (label, st_res[label]))
+    msel = sum(len(o["sel"]) for r_ in recs_m for o in r_["obs"])
+    nsel += msel
+    judged += len(recs_m)
+    for idx, (ps, pc, rs, rc) in sorted(mbad.items(), key=lambda kv: (kv[1][0], kv[0])):
+        rec = recs_m[idx]
+        ops = scripts_m[rec["i"]]["ops"]
+        sn = "rr+weights" if rec["wt"] else "rr"
+        if pc != "ok":
+            if pc == "hang":
+                ps = len(rec["obs"])
+            if pc in ("window-too-short", "malformed", "no-observation"):
+                raise Inconclusive("oracle could not judge manager record %d (%s)" % (idx, pc))
+            walk = mgr_walk(ops[:ps])
+            nm, named, blocked = walk[ps - 1]
+            o = rec["obs"][ps - 1] if 0 < ps <= len(rec["obs"]) else {}
+            hist = [mgr_op_str(x) for x in ops[:ps]]
+            replay = {"kind": "manager-history", "weighted": rec["wt"], "ops": ops[:ps], "observation": o, "class": pc, "step": ps}
+            if pc in ("panic", "panic-in-select"):
+                ctx.violate("C13:panic:%s:%s:manager" % (o.get("spf") or "?", msg_class(o.get("sp", ""))),
+                            "a plain call through the registry-fed proxy panicked (%s) after %s" % (o.get("sp"), "; ".join(hist)), replay)
+                continue
+            detail = "after-" + nm
+            if pc == "non-member":
+                act = set(o.get("act", []))
+                alien = next((x for x in o.get("sel", []) if x not in act and x != 0), None)
+                detail = ("blocked-endpoint-selected" if alien in blocked else "endpoint-the-registry-no-longer-names-selected"
+                          if alien is not None and alien > 0 and alien not in named else "endpoint-outside-the-current-set-selected") + ":" + detail
+            ctx.violate("C13:manager:%s:%s:%s" % (sn, pc, detail),
+                        "endpoint manager, plain calls (%s): %s after %s; the registry names %s, blocked by the status check: %s, the manager's "
+                        "own account of its current set: %s; servers that received the calls: %s"
+                        % (sn, pc, "; ".join(hist), sorted(named), sorted(blocked), o.get("act"), o.get("sel")), replay)
+        if rc != "ok":
+            e = robs.setdefault("manager-%s:%s" % (sn, rc), {"count": 0})
+            e["count"] += 1
+            if "example" not in e:
+                e["example"] = {"ops": [mgr_op_str(x) for x in ops[:rs]], "sel": rec["obs"][rs - 1]["sel"], "act": rec["obs"][rs - 1]["act"]}
+
     # B3 verdicts
     worder = 0
     for idx, (pc, rc) in sorted(wbad_all.items()):
@@ -686,19 +903,32 @@ def run(ctx):
     wex = next((r for r in wrecs if r["p"] == "" and len(r["w"]) == 3 and min(r["w"]) > 0), None)
     if wex:
         samples.append({"kind": "judged weight list", "w": wex["w"], "hosts": wex["ord"], "out": wex["out"]})
+    mex = next((r_ for r_ in recs_m if not r_["skip"] and any(op["o"] == "V" for op in scripts_m[r_["i"]]["ops"])), None)
+    if mex:
+        samples.append({"kind": "judged endpoint-manager history", "weighted": mex["wt"],
+                        "ops": [mgr_op_str(o) for o in scripts_m[mex["i"]]["ops"]],
+                        "servers_that_received_the_calls_after_each_op": [o["sel"] for o in mex["obs"]],
+                        "managers_account_of_its_set_after_each_op": [o["act"] for o in mex["obs"]]})
     if all_runs:
         samples.append({"kind": "validated concurrent run", "strategy": all_runs[0][0][0], "weighted": all_runs[0][0][1],
                         "events": all_runs[0][2][:14]})
 
     ctx.coverage = {
-        "states": mc_states + gen_states + tstates,
-        "transitions": mc_trans + gen_trans + ttrans,
+        "states": mc_states + gen_states + tstates + mg_states,
+        "transitions": mc_trans + gen_trans + ttrans + mg_trans,
         "traces_validated_against_impl": judged + len(wrecs) + truns,
         "samples": samples,
         "model_checking": mc,
         "mc_distinct_states": mc_states,
         "histories": {"generated_by_tlc": gen_stats, "records_judged": judged, "selections_judged": nsel,
                       "shards": [j[0] for j in shard_jobs], "tlc_states": gen_states},
+        "endpoint_manager": {"histories_generated_by_tlc": mstats, "modes": ["no static weights", "static weight per host"],
+                             "records_judged": len(recs_m), "selections_judged": msel, "driver": mtot,
+                             "not_carried_out_to_the_end": len(mskipped), "examples_not_carried_out": [r_["skip"] for r_ in mskipped[:3]],
+                             "steps_by_class": mcls, "tlc_states": mg_states,
+                             "how": "registry replies in random non-sorted order through the manager's own refresher (10 ms ticker, one "
+                                    "query let through per scripted reply); block = five unanswered calls + status check (virtual time); "
+                                    "recovery = answered probe; selections = which scripted server received each plain one-way call"},
         "weight_vectors": {"judged": len(wrecs), "positive": sum(1 for r in wrecs if r["w"] and min(r["w"]) > 0),
                            "with_an_endpoint_without_static_weight": sum(1 for r in wrecs if r["t"] and min(r["t"]) == 0),
                            "with_zero_or_negative": sum(1 for r in wrecs if r["w"] and min(r["w"]) <= 0),
@@ -717,6 +947,7 @@ def run(ctx):
                 "weights 1..3/5/8 for the weighted ring and with members that carry no static weight under the weighted mode), a window of "
                 "selections after every operation judged by Oracle_Selector; weight vectors (all of length<=2 over a boundary set, "
                 "random longer ones) through BuildStaticWeightList; concurrent runs (3 updaters, 4 selectors, final burst) validated "
-                "by Trace_Selector; distinct = distinct (strategy, mode, history) + distinct vectors + runs",
+                "by Trace_Selector; endpoint-manager histories (registry replies / block / recover, Gen_Mgr) carried out on a registry-fed "
+                "ServantProxy and judged by Oracle_Selector!MgrJudge; distinct = distinct (strategy, mode, history) + distinct vectors + runs",
         "exhaustive": False,
     }
